@@ -368,3 +368,225 @@ def _b_guillot(seed, tier):
 
 
 Bounded('C12', 'guillot_runtime', _b_guillot, doc='finiteness/positivity need properties of E2; closed form re-checked with scipy')
+
+
+# ------------------------------------------------------------------ NPoint.profile: nodes joined in log-pressure, smoothed
+def _np_params(c):
+    k = c.choice('K')                       # interior nodes
+    n = c.int('n')
+    return dict(self=ObjSpec('NPoint', _T_surface=c.real('Ts'), _T_top=c.real('Tt'), _t_points=[c.real('Tn%d' % i) for i in range(k)],
+                             _P_surface=-1, _P_top=-1, _p_points=[c.real('Pn%d' % i) for i in range(k)], _smooth_window=c.real('smooth'),
+                             _limit_slope=c.real('limit'), nlayers=n, pressure_profile=c.array('P', (n,))))
+
+
+def _np_nodes(c, v):
+    s = v.self
+    n = s.nlayers
+    P = [s.pressure_profile[0]] + list(s._p_points) + [s.pressure_profile[n - 1]]
+    T = [s._T_surface] + list(s._t_points) + [s._T_top]
+    return P, T
+
+
+def _np_pre(c, v):
+    s = v.self
+    n = s.nlayers
+    return {'layers': n >= 2,
+            'pressure_decreasing_positive': c.And(c.Forall(0, n, lambda i: s.pressure_profile[i] > 0),
+                                                  c.Forall2((0, n), (0, n), lambda i, j: c.Implies(i < j, s.pressure_profile[i] > s.pressure_profile[j]))),
+            'nodes_positive': c.And(*[c.Lt(0, p) for p in s._p_points]) if len(s._p_points) else True,
+            'limit': c.Lt(0, s._limit_slope),
+            'smoothing_window_in_percent': c.And(s._smooth_window > 0, s._smooth_window < 100)}
+
+
+def _np_raises(c, v):
+    P, T = _np_nodes(c, v)
+    k = len(P)
+    inverted = c.Or(*[c.Le(P[i], P[i + 1]) for i in range(k - 1)])
+    if c.mode == 'conc' and inverted:
+        return {'InvalidTemperatureException': True}
+    steep = c.Or(*[c.Le(v.self._limit_slope, c.Abs((T[i + 1] - T[i]) / (c.log10(P[i + 1]) - c.log10(P[i])))) for i in range(k - 1)])
+    return {'InvalidTemperatureException': c.Or(inverted, steep)}
+
+
+def _np_post(c, v0, v1, r):
+    n = v0.self.nlayers
+    P, T = _np_nodes(c, v0)
+    lo, hi = T[0], T[0]
+    for t in T[1:]:
+        lo, hi = c.Min(lo, t), c.Max(hi, t)
+    tol = 1e-9 if c.mode == 'conc' else 0
+    d = {'one_value_per_layer': c.Len(r) == n}
+    plain = lambda i: c.And(lo - tol * abs(lo) <= r[i], r[i] <= hi + tol * abs(hi)) if c.mode == 'conc' else c.And(lo <= r[i], r[i] <= hi)
+    if c.mode != 'sym':
+        d['within_the_control_temperatures'] = c.Forall(0, n, plain)
+        return d
+    from pyvc.core import View
+    loc = View(c, c.raw['state'].env, c.raw['state'].heap)
+    w, core = loc.wsize, loc.TP_smooth
+    R = c.last_interp
+    Rk = lambda k: R.elem((k,))
+    lem_R = c.ForallH(0, n, lambda k: c.And(lo <= Rk(k), Rk(k) <= hi))
+    nc = n - w + 1
+    S = lambda j: c.Sum(j, j + w, lambda q: Rk(q))
+    lem_sum = c.ForallH(0, nc, lambda j: c.hint(c.And(w * lo <= S(j), S(j) <= w * hi), c.sum_between(j, j + w, lambda q: Rk(q), lo, hi)))
+
+    def core_j(j):
+        a = core[j] * w == S(j)
+        bnd = c.And(w * lo <= S(j), S(j) <= w * hi)
+        g = c.And(lo <= core[j], core[j] <= hi)
+        return c.hint(g, a, bnd, c.pure(g, a, bnd, w >= 1), final_uses=1)
+    lem_core = c.ForallH(0, nc, core_j)
+    d['within_the_control_temperatures'] = c.hint(c.Forall(0, n, plain), lem_R, c.And(w >= 1, w <= n, c.Len(core) == nc), lem_sum, lem_core)
+    return d
+
+
+def _np_native(c, p):
+    import numpy as np
+    from taurex.data.profiles.temperature.npoint import NPoint
+    s = p['self']
+    o = NPoint.__new__(NPoint)
+    for nm in ('debug', 'info', 'warning', 'error', 'critical'):
+        setattr(o, nm, lambda *a, **k: None)
+    o._T_surface, o._T_top, o._t_points, o._p_points = s['_T_surface'], s['_T_top'], list(s['_t_points']), list(s['_p_points'])
+    o._P_surface, o._P_top, o._smooth_window, o._limit_slope = s['_P_surface'], s['_P_top'], s['_smooth_window'], s['_limit_slope']
+    o.nlayers, o.pressure_profile = s['nlayers'], np.array(s['pressure_profile'], dtype=float)
+    return np.asarray(o.profile, dtype=float), p
+
+
+def _np_gen(rng):
+    n = rng.randint(2, 60)
+    K = rng.randint(0, 2)
+    P = sorted((10 ** rng.uniform(-3, 6) for _ in range(n)), reverse=True)
+    Pn = sorted((10 ** rng.uniform(-3, 6) for _ in range(K)), reverse=True)
+    d = dict(n=n, K=K, P=P, Ts=rng.uniform(300, 3000), Tt=rng.uniform(300, 3000), smooth=rng.choice([10, rng.uniform(1, 99)]),
+             limit=rng.choice([9999999.0, 9999999.0, 2000.0]))
+    if rng.random() < 0.15:
+        d['Tt'] = d['Ts']
+    for i in range(K):
+        d['Pn%d' % i] = Pn[i]
+        d['Tn%d' % i] = d['Ts'] if rng.random() < 0.1 else rng.uniform(300, 3000)
+    return d
+
+
+NPP = Unit('C12', TP + 'npoint:NPoint.profile', _np_params, pre=_np_pre, post=_np_post, raises=_np_raises, native=_np_native, gen=_np_gen,
+           cases=[{'K': k} for k in (0, 1, 2)], bounds=[dict(n=3)], safety=('index', 'div', 'domain', 'sorted'), short='NPoint.profile',
+           doc='node-based profile (0..2 interior nodes at code level, any layer count >= 2, surface/top pressures taken from the grid): invalid '
+               'node sets rejected (check_profile by its contract), otherwise one temperature per layer inside the range of the control '
+               'temperatures, smoothing included (np.interp between-neighbours fact, movingaverage by contract, sum_between lemma)')
+
+
+# ------------------------------------------------------------------ Rodgers2000.profile (default covariance): row-normalised correlation weights
+def _rg_params(c):
+    n = c.int('n')
+    return dict(self=ObjSpec('Rodgers2000', _tp_corr_length=c.real('h'), _covariance=None, _T_layers=c.array('T', (n,)),
+                             pressure_profile=c.array('P', (n,)), nlayers=n))
+
+
+def _rg_pre(c, v):
+    s = v.self
+    n = s.nlayers
+    return {'layers': n >= 1, 'one_temperature_per_layer': c.Len(s._T_layers) == n, 'correlation_length_positive': s._tp_corr_length > 0,
+            'pressure_positive': c.Forall(0, n, lambda i: s.pressure_profile[i] > 0)}
+
+
+def _rg_C(c, s, i, j):
+    return c.exp((-1.0 * c.Abs(c.ln(s.pressure_profile[i] / s.pressure_profile[j]))) / s._tp_corr_length)
+
+
+def _rg_post(c, v0, v1, r):
+    s = v0.self
+    n = s.nlayers
+    T = s._T_layers
+    d = {'one_value_per_layer': c.Len(r) == n}
+    if c.mode == 'conc':
+        lo, hi = min(T), max(T)
+        d['within_the_layer_temperatures'] = all(lo - 1e-9 * abs(lo) <= r[i] <= hi + 1e-9 * abs(hi) for i in range(n))
+        return d
+    if c.mode == 'bmc':
+        return d
+    lo, hi = z3.Reals('lo? hi?')
+    inside = c.Forall(0, n, lambda j: z3.And(lo <= T[j], T[j] <= hi))
+    W = lambda i: c.Sum(0, n, lambda j: _rg_C(c, s, i, j))
+    Wc = lambda i: c.Sum(0, n, lambda k: _rg_C(c, s, k, i))
+    X = lambda i: c.Sum(0, n, lambda j: _rg_C(c, s, i, j) * T[j])
+
+    def row(i):
+        g = z3.And(lo <= r[i], r[i] <= hi)
+        Cij = lambda j: _rg_C(c, s, i, j)
+        inv, dinv = c.define('inv', 1 / Wc(i))
+        return c.hint(g,
+                      c.congr(0, n, lambda k: _rg_C(c, s, k, i), Cij),                                  # the default covariance is symmetric
+                      c.wsum_between(0, n, Cij, lambda j: T[j], lo, hi),
+                      c.sum_dominates(0, n, Cij, i), Cij(i) > 0, c.And(W(i) > 0, Wc(i) == W(i), inv * W(i) == 1),
+                      c.congr(0, n, lambda j: (Cij(j) / Wc(i)) * T[j], lambda j: inv * (Cij(j) * T[j])),
+                      c.sum_scale(0, n, lambda j: Cij(j) * T[j], inv),
+                      r[i] == inv * X(i), c.pure_ground(r[i] * W(i) == X(i), r[i] == inv * X(i), inv * W(i) == 1),
+                      c.pure_ground(g, r[i] * W(i) == X(i), W(i) > 0, z3.And(lo * W(i) <= X(i), X(i) <= hi * W(i))), defs=[dinv], final_uses=1)
+    d['within_the_layer_temperatures'] = c.under(inside, c.ForallH(0, n, row), [lo, hi])
+    return d
+
+
+def _rg_native(c, p):
+    import numpy as np
+    from taurex.data.profiles.temperature.rodgers import Rodgers2000
+    s = p['self']
+    o = Rodgers2000.__new__(Rodgers2000)
+    o._tp_corr_length, o._covariance, o._T_layers = s['_tp_corr_length'], None, np.array(s['_T_layers'], dtype=float)
+    o.pressure_profile, o.nlayers = np.array(s['pressure_profile'], dtype=float), s['nlayers']
+    return np.asarray(o.profile, dtype=float), p
+
+
+RGP = Unit('C12', TP + 'rodgers:Rodgers2000.profile', _rg_params, pre=_rg_pre, post=_rg_post, native=_rg_native,
+           gen=lambda rng: (lambda n: dict(n=n, h=rng.uniform(0.5, 10), T=[rng.uniform(300, 3000) for _ in range(n)],
+                                           P=sorted((10 ** rng.uniform(-3, 6) for _ in range(n)), reverse=True)))(rng.randint(1, 12)),
+           bounds=[dict(n=2)], safety=('index', 'div', 'domain'), inline=['gen_covariance', 'correlate_temp'], short='Rodgers2000.profile',
+           doc='layer-correlated profile with the default covariance exp(-|ln(Pi/Pj)|/h): one value per layer, a weighted mean of the layer '
+               'temperatures with positive weights, hence inside their range')
+
+
+# ------------------------------------------------------------------ TemperatureArray.profile (no pressure points given)
+def _ta_params(c):
+    K = c.int('K')
+    n = K if c.choice('same') else c.int('n')
+    return dict(self=ObjSpec('TemperatureArray', _tp_profile=c.array('A', (K,)), _p_profile=None, nlayers=n))
+
+
+def _ta_post(c, v0, v1, r):
+    s = v0.self
+    n, A = s.nlayers, s._tp_profile
+    K = c.Len(A)
+    fx = c.fixed if c.mode != 'conc' else c.values
+    d = {'one_value_per_layer': c.Len(r) == n}
+    if fx['same']:
+        d['the_array_itself'] = c.Forall(0, n, lambda i: c.Eq(r[i], A[i]))
+        return d
+    if c.mode == 'conc':
+        lo, hi = min(A), max(A)
+        d['within_the_control_temperatures'] = all(lo - 1e-9 * abs(lo) <= r[i] <= hi + 1e-9 * abs(hi) for i in range(n))
+        return d
+    if c.mode == 'bmc':
+        return d
+    lo, hi = z3.Reals('lo? hi?')
+    d['within_the_control_temperatures'] = z3.ForAll([lo, hi], z3.Implies(c.Forall(0, K, lambda j: z3.And(lo <= A[j], A[j] <= hi)),
+                                                                         c.Forall(0, n, lambda i: z3.And(lo <= r[i], r[i] <= hi))))
+    return d
+
+
+def _ta_native(c, p):
+    import numpy as np
+    from taurex.data.profiles.temperature.temparray import TemperatureArray
+    s = p['self']
+    o = TemperatureArray(tp_array=list(s['_tp_profile']))
+    o.nlayers = s['nlayers']
+    return np.asarray(o.profile, dtype=float), p
+
+
+TAP = Unit('C12', TP + 'temparray:TemperatureArray.profile', _ta_params,
+           pre=lambda c, v: {'layers': v.self.nlayers >= 2, 'at_least_two_control_temperatures': c.Len(v.self._tp_profile) >= 2},
+           post=_ta_post, native=_ta_native, cases=[{'same': True}, {'same': False}], bounds=[dict(K=2, n=3)],
+           gen=lambda rng: (lambda K, same: dict(K=K, same=same, n=K if same else rng.randint(2, 12), A=[rng.uniform(300, 3000) for _ in range(K)]))(
+               rng.randint(2, 7), rng.random() < 0.3),
+           safety=('index', 'div', 'sorted'), short='TemperatureArray.profile',
+           doc='array profile without pressure points: the array itself when it has one entry per layer, otherwise interpolated onto the '
+               'layers (np.linspace, np.interp: assumed models) and inside the range of the given temperatures; the variant with pressure '
+               'points (scipy interp1d object built by the constructor) stays a bounded item')
